@@ -657,6 +657,47 @@ func TestVerifBoundedOpsTraversal(t *testing.T) {
 								accMax[k] = true
 							}
 						}
+						// TraversePaths with a PRUNING descent filter: a candidate whose node is not in A is rejected AND detached
+						// from the path tree by the filter (the documented way to give a branch up). Oracle: the maximal
+						// acyclic paths of the subgraph induced by A + {root}. Rejecting a candidate must not make the traversal
+						// lose or repeat one of its siblings.
+						{
+							whereX := fmt.Sprintf("%s accepted nodes A=%v", where, aList)
+							induced := &ovGraph{n: g.n, nodes: g.nodes, desc: g.desc}
+							for _, e := range g.edges {
+								if (e.s == root || inA(e.s)) && (e.e == root || inA(e.e)) {
+									induced.edges = append(induced.edges, e)
+								}
+							}
+							wantPruned := ovMaximalPaths(induced, root, dir)
+							var pruned graph.PathSet
+							if call("TraversePaths+pruning filter", func(tx graph.Transaction, plan TraversalPlan) error {
+								plan.DescentFilter = func(ctx *TraversalContext, segment *graph.PathSegment) bool {
+									if i := ovIndex(segment.Node.ID); i != root && !inA(i) {
+										segment.Detach()
+										return false
+									}
+									return true
+								}
+								var err error
+								pruned, err = TraversePaths(tx, plan)
+								return err
+							}, 0, 0) {
+								xCases["TraversePaths+pruning filter"]++
+								keys, problem := ovPathKeys(pruned, dir)
+								gotSet := map[string]bool{}
+								for k := range keys {
+									gotSet[k] = true
+								}
+								wantSet := map[string]bool{}
+								for k := range wantPruned {
+									wantSet[k] = true
+								}
+								if problem != "" || len(pruned) != len(wantSet) || !ovSubset(gotSet, wantSet) || !ovSubset(wantSet, gotSet) {
+									fail("TraversePaths+pruning filter %s: returned %d paths %v %s; want exactly %v (maximal acyclic paths of the subgraph induced by A and the root; rejected candidates are detached by the filter)", whereX, len(pruned), ovSortedKeys(keys), problem, ovSortedKeys(wantSet))
+								}
+							}
+						}
 						for skip := 0; skip <= 2; skip++ {
 							for limit := 0; limit <= 2; limit++ {
 								exact := skip == 0 && limit == 0
